@@ -129,9 +129,9 @@ PROPS["C11"] = {
 PROPS["C09"] = {
     "needs_sfw": True,
     "technique": "Lean 4 theorems on the matcher/report bookkeeping and the zipper's map bookkeeping + regenerated go/ast facts + oracle on the real zipper maps",
-    "lean_modules": ["SfwModel.Props.C09", "SfwModel.Props.C09Zipper", "SfwModel.Props.C09Facts", "SfwModel.Props.C09Equiv"],
+    "lean_modules": ["SfwModel.Props.C09", "SfwModel.Props.C09Zipper", "SfwModel.Props.C09Facts", "SfwModel.Props.C09Equiv", "SfwModel.Props.C04Enforce"],
     "suites": [{"name": "diffreport", "quick": 10, "thorough": 150, "timeout": 3000}, {"name": "zipeq", "quick": 4, "thorough": 40, "timeout": 3000}, {"name": "cli", "quick": 1, "thorough": 6, "timeout": 3000}],
-    "required_theorems": ["C09_old_partition", "C09_new_partition", "C09_same_name_paired", "C09_byName_iff",
+    "required_theorems": ["C09_enforce_sublist", "C09_enforce_noop", "C09_old_partition", "C09_new_partition", "C09_same_name_paired", "C09_byName_iff",
                           "C09_summary_counts", "C09_lockstep_reachable", "C09_one_to_one", "C09_accounting",
                           "C09_unguarded_breaks", "C09_single_writer", "C09_matchUsers_guarded",
                           "C09_equivalent_same_kind", "C09_equivalent_same_type", "C09_equivalent_same_arity"],
@@ -218,12 +218,14 @@ PROPS["C04"] = {
     "suites": [{"name": "collide", "quick": 8, "thorough": 50, "timeout": 3000}, {"name": "zipeq", "quick": 4, "thorough": 40, "timeout": 3000},
                {"name": "ssasem", "quick": 4, "thorough": 30, "timeout": 3000}],
     "also": ["C09"],   # the zipeq suite tags its correspondence violations C09
-    "lean_modules": ["SfwModel.Props.C04", "SfwModel.Props.C09Zipper", "SfwModel.Props.C09Equiv", "SfwModel.Props.C03Sem", "SfwModel.Props.C04Sem"],
+    "lean_modules": ["SfwModel.Props.C04", "SfwModel.Props.C09Zipper", "SfwModel.Props.C09Equiv", "SfwModel.Props.C03Sem", "SfwModel.Props.C04Sem", "SfwModel.Props.C04Enforce"],
     "required_theorems": ["C04_preserved_iff", "C04_identical_copy_preserved", "C04_oversized_never_zipper_preserved",
                           "C04_unmatched_means_modified", "C04_zipper_preserved_same_size", "C04_constant_marker_was_unsound",
                           "C04_equivalent_same_operator", "C04_equivalent_operands", "C04_equivalent_operands_swapped",
                           "C04_swap_guard", "C04_mapped_operand_respected",
-                          "C04_sem_allowSwap_sound", "C04_sem_iso_same_behaviour", "C04_sem_exchanged_returns_rejected"],
+                          "C04_sem_allowSwap_sound", "C04_sem_iso_same_behaviour", "C04_sem_exchanged_returns_rejected",
+                          "C04_enforce_blocks_correspond", "C04_enforce_order_kept", "C04_enforce_successors_correspond",
+                          "C04_enforce_phi_edges_correspond", "C04_enforce_entry"],
     "level_text": "Kernel-checked decision logic of CompareFunctions: the verdict is `preserved` iff the fingerprints are equal, or neither side is oversized and the zipper left nothing added and nothing removed; identical copies are preserved; an oversized function is never waved through by the zipper; any unmatched instruction means modified; zipper-preserved pairs have equally many instructions (bookkeeping theorems of C09). Behavioural tie: for every generated (old,new) pair whose native outputs differ on some input, and for the specials (exchanged if/else bodies, oversized edit, callee swap, select, nested loop variables), the real cli.CompareFunctions / ComputeDiff status must not be preserved; every function compared with a separately compiled copy of itself must be preserved with nothing added or removed.",
     "level_note": "PARTIAL: that fingerprint equality and an empty zipper difference imply equal behaviour is C03's open half; here it is searched by native execution. The zipper's equivalence test is modelled and tied decision by decision (trace hook); theorems say what a positive decision guarantees (same operator fields; every operand already mapped to its partner or a non-linkable value with the same canonical text; swaps only for commutative numeric ops and ==/!=).",
     "partial": "soundness of the two routes to `preserved` rests on C03 / the zipper's equivalence relation, searched by native execution",
